@@ -87,6 +87,14 @@ CHAINS = [
     "w = 0\nx = 0\ny = 0\nwhile true:\n    w = w + x\n    x = x + y\n    y = y + p\nend\n",
     "v = 1\nw = 0\nx = 0\ny = 0\nwhile true:\n    v = w\n    w = x\n    x = y\n    y = y + 1 {p} y\nend\n",
     "x = 0\ny = 0\nz = p\nwhile true:\n    x = x + y\n    y = y + z\n    z = z*q\nend\n",
+    # a parameter coefficient times a monomial mixing a parameter-dependent with a parameter-independent stateful variable,
+    # under every relative name order of the two
+    "x = 0\ny = 0\nz = 1\nwhile true:\n    x = x + 1 {p} x\n    z = z + 1 {1/2} z\n    y = y + p*x*z\nend\n",
+    "x = 0\ny = 0\na = 1\nwhile true:\n    x = x + 1 {p} x\n    a = a + 1 {1/2} a\n    y = y + p*x*a\nend\n",
+    "w = 0\ny = 0\nb = 1\nwhile true:\n    w = w + p\n    b = 2*b {1/2} b\n    y = y + p*w*b\nend\n",
+    "x = 0\ny = 0\nz = 1\nu = 1\nwhile true:\n    x = x + 1 {p} x\n    z = z + 1 {1/2} z\n    u = u + 1\n    y = y + p*u*x*z + q*z\nend\n",
+    "x = 0\ny = 0\nz = 1\nwhile true:\n    x = x + 1 {p} x\n    z = z + 1 {1/2} z\n    y = y + p**2*x*z**2 + p*z\nend\n",
+    "x = 0\ny = 0\nz = 1\nwhile true:\n    z = z + 1 {1/2} z\n    y = y + p*z*x\n    x = x + 1 {p} x\nend\n",
 ]
 
 
@@ -105,7 +113,7 @@ def cases(tier, seed):
             seqs.append([a, b])
     out, seen = [], set()
     for text in CHAINS:
-        out.append({"input": {"text": text, "goals": gen.goals_for(text, 1, 6) + ["x**2"]}, "N": 6})
+        out.append({"input": {"text": text, "goals": gen.goals_for(text, 1, 6) + (["x**2"] if "x = " in text else ["w*b"])}, "N": 6})
     for seq in seqs:
         for ii, init in enumerate(INITS):
             if ii and len(seq) > 1 and tier == "quick" and seq[0] not in P_STMTS[:4]:
